@@ -333,6 +333,18 @@ def data_unit_table(tier, seed):
                 if got and len(viol) < 40:
                     viol.append({'id': 'stacked-%s-%s' % (full, order_name.split()[0]), 'input': "eval_qty('1 %s')  [after the %s pass]" % (full, order_name), 'observed': got, 'expected': 'UnitsParseError',
                                  'script': "from pgradd.Units import eval_qty\nfor u in ('kg', 'cm', 'kJ', 'km', 'mm', %r): print(u, eval_qty('1 ' + u))   # the last one: expected UnitsParseError\n" % full})
+    # conversion between two spellings of ONE dimension reached through different fractional powers (the 1e-7 snapping of exponents exists for this)
+    with contextlib.redirect_stdout(io.StringIO()):
+        for a_, b_, want in (('m^0.1 m^0.2', 'm^0.3', 1.0), ('5 s^0.7 s^0.1', 'ms^0.8', 5.0 * 1000 ** 0.8), ('J/(mol^0.1 mol^0.2)', 'kJ/mol^0.3', 1e-3), ('m^0.5 m^0.5', 'm', 1.0),
+                             ('km^0.3 km^0.4 km^0.3', 'm', 1000.0)):
+            n += 1
+            try:
+                got = eval_qty(a_).in_units(b_)
+            except Exception as ex:    # noqa
+                got = 'raised %s: %s' % (type(ex).__name__, str(ex)[:60])
+            if isinstance(got, str) or abs(got / want - 1) > 1e-9:
+                viol.append({'id': 'fractional-%s' % a_.replace(' ', '_').replace('/', '_'), 'input': "eval_qty(%r).in_units(%r)" % (a_, b_), 'observed': got, 'expected': want,
+                             'script': "from pgradd.Units import eval_qty\nprint(eval_qty(%r).in_units(%r))   # expected %r\n" % (a_, b_, want)})
     return {'name': 'unit-table-vs-SI', 'obligations': n, 'violations': viol, 'samples': samples, 'exhaustive': True,
             'bound': 'all %d unit names x (no prefix + %d prefixes), three passes in different orders in one process + stacked prefixes' % (len(names), len(prefixes))}
 
